@@ -131,4 +131,10 @@ CHECKS["C14"] = {
     "text": "Every statement tree up to the size bound over user/bot steps, assignments, if/else, while, execute with scripted results and do-subflow (printed to Colang, parsed by the real parser), with a second flow for leaving; at every user point the history branches over the expected intent, another flow's intent, an unknown intent; the decided next step and the resulting context must equal the reference while the history follows the flow; decisions must not depend on earlier calls on the same flow configs.",
     "note": "Trusted: the reference interpreter (generator-based, in vf/props/c14.py); behaviour after a flow was interrupted is not specified and only checked for the history-only clause; labels/goto, when/else, break/continue are not generated. The thorough tier is time capped (reported in evidence).",
 }
+CHECKS["C19"] = {
+    "engine": "E2-aio (virtual asyncio loop)", "level": "model_checking",
+    "technique": "stateless exhaustive schedule exploration (DFS with prefix replay) of the real BasicEmbeddingsIndex on a hand-driven virtual asyncio loop: every order of request arrivals, batch-hold timers and embedding-model completions, for every configuration of batching and caching",
+    "text": "Requests (single text, list, search; duplicates and empty string) x max_batch_size 1..3 x cache off / in-memory / filesystem x key generators (optionally pre-warmed) x batching on/off, a second round of requests on the warm state, and two indexes with different models sharing a cache: every request returns exactly model(text) in input order, every started request completes (deadlock, step horizon and a CPU watchdog are failure classes), request tables are empty at the end. Quick: 6 837 configurations fully enumerated; thorough: all configurations with <=4 requests exhaustive, 5-request ones up to a reported deviation bound.",
+    "note": "Trusted: the virtual loop (ready queue FIFO and never permuted; timers and external completions are explorer choices; replays must reproduce identical enabled-choice lists), fake embedding provider registered through the library registry; model failures/cancellations and the redis store are not covered.",
+}
 NOT_APPLICABLE = {}
